@@ -32,6 +32,8 @@ CHECKS = {
  "C13": dict(tech="TLA+ model of the validation protocol (Validate.tla) over attribute tables introspected from the working tree: TLC enumerates all cells, predicts the _validate verdict (bound to the real one) and the accepted-but-missing-method cells; selected cells executed in isolated workers; outcomes judged by TLC (RelTrace facts + SolverTrace monitor)",
              text="Model checking of the required-attribute protocol over the full composition matrix (14k cells with fit_intercept) + execution of predicted-late-failure cells and a stratified sample (all cells in the thorough tier): refusals must name a really missing method/structure, accepted cells must return finite values meeting the certificate, never die or hang.", ref="6 C13",
              note="Trusted: the explained() vocabulary/regex for 'names the method or structure', the oracle for cert, isolation by process (death/timeout observed by the parent)."),
+ "C05": dict(tech="TLA+ history model Path.tla (TLC -simulate generates entry-point x operation histories, invariant WarmSound) replayed on the real entry points; every BaseSolver.solve inside a history is traced and judged by the SolverTrace monitor against the problem of THAT step (clauses cert, buffer); sentinels from CDCore counterexamples",
+             text="Histories of direct solves reusing buffers, path() over grids in every order from every coef_init shape, and warm_start refits after hyper-parameter changes are generated by TLC and executed; TLC judges each step's certificate against its own alpha and the consistency of the caller's buffers on return.", ref="6 C05"),
 }
 NA = []
 checks = []
